@@ -473,3 +473,462 @@ Proof.
     replace (- (m * p) * - pi) with (m * (p * pi)) by ring.
     rewrite <- Zmult_mod_idemp_r, Hpi. f_equal; ring.
 Qed.
+
+(* ---- opening: nonce recovery by N-th root via CRT ---------------------------------------------- *)
+
+Lemma root_mod_prime : forall p q d r, prime p -> 0 < q -> Z.gcd r p = 1 ->
+  (q * d) mod (p - 1) = 1 -> 0 <= d -> 2 < p ->
+  modexp ((r ^ (p * q) mod ((p * q) * (p * q))) mod p) d p = r mod p.
+Proof.
+  intros p q d r Hp Hq Hg Hd Hd0 Hp2.
+  rewrite modexp_spec by lia.
+  rewrite mod_mod_divide by (lia || (exists (q * (p * q)); ring)).
+  rewrite <- Zpower_mod by lia. rewrite <- Z.pow_mul_r by nia.
+  pose proof (Z.div_mod (q * d) (p - 1) ltac:(lia)) as Hdm. rewrite Hd in Hdm.
+  assert (Ht : 0 <= q * d / (p - 1)) by (apply Z.div_pos; nia).
+  replace (p * q * d) with ((p - 1) * (p * (q * d / (p - 1)) + 1) + 1) by nia.
+  rewrite pow_fermat_reduce by (assumption || nia). rewrite Z.pow_1_r. reflexivity.
+Qed.
+
+Lemma open_enc : forall p q k m r, prime p -> prime q -> p <> q ->
+  precompute p q = Some k -> Z.gcd r (p * q) = 1 -> 0 <= m < p * q -> 0 <= r < p * q ->
+  open_ct k (enc (p * q) m r) = Some (m, r).
+Proof.
+  intros p q k m r Hp Hq Hne Hk Hg Hm Hr.
+  destruct (precompute_fields _ _ _ Hk) as (Ep & Eq & Hp2 & Hq2 & Hqi & _ & _ & _ & Hqphi & Hqphi0 & Hpphi & Hpphi0 & _).
+  pose proof (gcd_factor_l _ _ _ Hg) as Hgp. pose proof (gcd_factor_r _ _ _ Hg) as Hgq.
+  unfold open_ct. rewrite (decrypt_enc p q k m r) by assumption.
+  unfold sk_N. rewrite Ep, Eq. set (N := p * q) in *.
+  assert (HN : 1 < N) by (unfold N; nia).
+  assert (Hy : (enc N m r * ((1 - (m * N) mod (N * N)) mod (N * N))) mod (N * N) = r ^ N mod (N * N)).
+  { rewrite (mulm _ ((1 + m * N) * r ^ N) _ (1 - m * N)).
+    - apply mod_eq_witness with (t := - (m * m * r ^ N)). ring.
+    - rewrite enc_spec by lia. apply Zmod_mod.
+    - rewrite Zmod_mod. apply Zminus_mod_idemp_r. }
+  rewrite Hy.
+  assert (Hrp : modexp ((r ^ N mod (N * N)) mod p) (sk_qinv_phip k) p = r mod p)
+    by (unfold N; apply root_mod_prime; assumption || lia).
+  assert (Hrq : modexp ((r ^ N mod (N * N)) mod q) (sk_pinv_phiq k) q = r mod q)
+    by (unfold N; replace (p * q) with (q * p) by ring; apply root_mod_prime; assumption || lia).
+  rewrite Hrp, Hrq.
+  unfold recombine_N. rewrite Ep, Eq.
+  rewrite (recombine_eq p q (sk_qinv k) (r mod p) (r mod q) r); try lia.
+  - unfold unit_from.
+    assert (r <> 0) by (intros ->; rewrite Z.gcd_0_l, Z.abs_eq in Hg by lia; lia).
+    replace (r <=? 0) with false by (symmetry; apply Z.leb_gt; lia).
+    rewrite Z.mod_small by assumption. fold N. rewrite Hg, Z.eqb_refl. reflexivity.
+  - apply primes_rel_prime; assumption.
+  - apply Zmod_mod.
+Qed.
+
+(* ---- the secret-key (CRT) path computes the same values as the public path -------------------- *)
+
+Lemma gcd_mod_l : forall a n, n <> 0 -> Z.gcd (a mod n) n = Z.gcd a n.
+Proof. intros. rewrite Z.gcd_mod by assumption. apply Z.gcd_comm. Qed.
+
+Lemma gcd_mul_1 : forall a P Q, Z.gcd a P = 1 -> Z.gcd a Q = 1 -> Z.gcd a (P * Q) = 1.
+Proof.
+  intros a P Q HP HQ. apply Zgcd_1_rel_prime. apply rel_prime_mult; apply Zgcd_1_rel_prime; assumption.
+Qed.
+
+(* CRT inversion (OddPrimeFactors.ModInv / OddPrimeSquareFactors.ModInv) = plain inversion *)
+Lemma crt_modinv : forall P Q Qinv a, rel_prime P Q -> 1 < P -> 1 < Q -> (Q * Qinv) mod P = 1 ->
+  match modinv (a mod P) P, modinv (a mod Q) Q with
+  | Some ip, Some iq => Some (recombine P Q Qinv ip iq)
+  | _, _ => None
+  end = modinv a (P * Q).
+Proof.
+  intros P Q Qinv a Hrp HP HQ Hinv.
+  destruct (modinv a (P * Q)) as [x|] eqn:Ex.
+  - destruct (modinv_sound _ _ _ Ex) as (HPQ & Rx & Hx).
+    pose proof (modinv_some_gcd _ _ _ Ex) as Hg.
+    pose proof (gcd_factor_l _ _ _ Hg) as HgP. pose proof (gcd_factor_r _ _ _ Hg) as HgQ.
+    destruct (modinv_complete (a mod P) P HP ltac:(rewrite gcd_mod_l by lia; assumption)) as [ip Eip].
+    destruct (modinv_complete (a mod Q) Q HQ ltac:(rewrite gcd_mod_l by lia; assumption)) as [iq Eiq].
+    rewrite Eip, Eiq. f_equal.
+    assert (HxP : (a mod P * (x mod P)) mod P = 1).
+    { rewrite <- Zmult_mod. rewrite <- (mod_mod_divide (a * x) P (P * Q)) by (lia || (exists Q; ring)).
+      rewrite Hx. apply Z.mod_1_l. lia. }
+    assert (HxQ : (a mod Q * (x mod Q)) mod Q = 1).
+    { rewrite <- Zmult_mod. rewrite <- (mod_mod_divide (a * x) Q (P * Q)) by (lia || (exists P; ring)).
+      rewrite Hx. apply Z.mod_1_l. lia. }
+    apply recombine_eq; try lia; try assumption.
+    + rewrite (modinv_eq _ _ _ (x mod P) Eip); [apply Zmod_mod | apply Z.mod_pos_bound; lia | assumption].
+    + apply (modinv_eq _ _ _ (x mod Q) Eiq); [apply Z.mod_pos_bound; lia | assumption].
+  - destruct (modinv (a mod P) P) as [ip|] eqn:Eip; [|reflexivity].
+    destruct (modinv (a mod Q) Q) as [iq|] eqn:Eiq; [|reflexivity].
+    exfalso. apply modinv_some_gcd in Eip, Eiq. rewrite gcd_mod_l in Eip, Eiq by lia.
+    destruct (modinv_complete a (P * Q) ltac:(nia) (gcd_mul_1 _ _ _ Eip Eiq)) as [x Hx]. congruence.
+Qed.
+
+(* CRT exponentiation = plain exponentiation, given the two residues *)
+Lemma crt_modexp : forall P Q Qinv b e ep eq, rel_prime P Q -> 1 < P -> 1 < Q -> (Q * Qinv) mod P = 1 ->
+  b ^ ep mod P = b ^ e mod P -> b ^ eq mod Q = b ^ e mod Q ->
+  recombine P Q Qinv (modexp b ep P) (modexp b eq Q) = modexp b e (P * Q).
+Proof.
+  intros P Q Qinv b e ep eq Hrp HP HQ Hinv Hp Hq.
+  rewrite !modexp_spec by nia.
+  apply recombine_eq; try lia; try assumption.
+  - apply Z.mod_pos_bound. nia.
+  - rewrite Zmod_mod, Hp. symmetry. apply mod_mod_divide; [lia | exists Q; ring].
+  - rewrite Hq. symmetry. apply mod_mod_divide; [lia | exists P; ring].
+Qed.
+
+Lemma mod_pred : forall p, 2 < p -> p mod (p - 1) = 1.
+Proof. intros p Hp. symmetry. apply (Zmod_unique p (p - 1) 1 1); lia. Qed.
+
+Section SecretKeyPath.
+  Variables p q : Z.
+  Variable k : skey.
+  Hypothesis Hp : prime p.
+  Hypothesis Hq : prime q.
+  Hypothesis Hne : p <> q.
+  Hypothesis Hk : precompute p q = Some k.
+
+  Let N := p * q.
+
+  Lemma sk_N_eq : sk_N k = p * q.
+  Proof. destruct (precompute_fields _ _ _ Hk) as (Ep & Eq & _). unfold sk_N. now rewrite Ep, Eq. Qed.
+
+  Lemma N2_split : (p * q) * (p * q) = (p * p) * (q * q).
+  Proof. ring. Qed.
+
+  (* OddPrimeSquareFactors.ModExp *)
+  Lemma sk_modexp2_eq : forall b e, 0 <= e -> sk_modexp2 k b e = modexp b e ((p * q) * (p * q)).
+  Proof.
+    intros b e He.
+    destruct (precompute_fields _ _ _ Hk) as (Ep & Eq & Hp2 & Hq2 & _ & Hq2i & _).
+    unfold sk_modexp2, recombine_N2. rewrite Ep, Eq, N2_split.
+    apply crt_modexp; try nia; try assumption.
+    - apply squares_rel_prime. apply primes_rel_prime; assumption.
+    - destruct (Z.gcd b p =? 1) eqn:Eg; [|reflexivity]. apply Z.eqb_eq in Eg.
+      rewrite (Z.div_mod e (p * (p - 1))) at 2 by nia.
+      rewrite pow_euler_reduce; try assumption; try reflexivity.
+      + apply Z.div_pos; nia.
+      + apply Z.mod_pos_bound; nia.
+    - destruct (Z.gcd b q =? 1) eqn:Eg; [|reflexivity]. apply Z.eqb_eq in Eg.
+      rewrite (Z.div_mod e (q * (q - 1))) at 2 by nia.
+      rewrite pow_euler_reduce; try assumption; try reflexivity.
+      + apply Z.div_pos; nia.
+      + apply Z.mod_pos_bound; nia.
+  Qed.
+
+  (* OddPrimeSquareFactors.ModInv *)
+  Lemma sk_modinv2_eq : forall a, sk_modinv2 k a = modinv a ((p * q) * (p * q)).
+  Proof.
+    intros a.
+    destruct (precompute_fields _ _ _ Hk) as (Ep & Eq & Hp2 & Hq2 & _ & Hq2i & _).
+    unfold sk_modinv2, recombine_N2. rewrite Ep, Eq, N2_split.
+    apply crt_modinv; try nia; try assumption.
+    apply squares_rel_prime. apply primes_rel_prime; assumption.
+  Qed.
+
+  (* OddPrimeSquareFactors.ExpToN *)
+  Lemma sk_noise_eq : forall r, Z.gcd r (p * q) = 1 -> sk_noise k r = noise (p * q) r.
+  Proof.
+    intros r Hg.
+    destruct (precompute_fields _ _ _ Hk) as (Ep & Eq & Hp2 & Hq2 & _ & Hq2i & _ & _ & _ & _ & _ & _ & Eep & Eeq).
+    pose proof (gcd_factor_l _ _ _ Hg) as Hgp. pose proof (gcd_factor_r _ _ _ Hg) as Hgq.
+    unfold sk_noise, noise, recombine_N2. rewrite Ep, Eq, Eep, Eeq, N2_split.
+    apply crt_modexp; try nia; try assumption.
+    - apply squares_rel_prime. apply primes_rel_prime; assumption.
+    - assert (Es : (p * q) mod (p - 1) = q mod (p - 1)).
+      { rewrite <- Zmult_mod_idemp_l, mod_pred by lia. f_equal; ring. }
+      rewrite Es. pose proof (Z.div_mod q (p - 1) ltac:(lia)) as Hd.
+      replace (p * q) with (p * (p - 1) * (q / (p - 1)) + p * (q mod (p - 1))) by nia.
+      rewrite pow_euler_reduce; try assumption; try reflexivity.
+      + apply Z.div_pos; lia.
+      + pose proof (Z.mod_pos_bound q (p - 1) ltac:(lia)). nia.
+    - assert (Es : (p * q) mod (q - 1) = p mod (q - 1)).
+      { rewrite <- Zmult_mod_idemp_r, mod_pred by lia. f_equal; ring. }
+      rewrite Es. pose proof (Z.div_mod p (q - 1) ltac:(lia)) as Hd.
+      replace (p * q) with (q * (q - 1) * (p / (q - 1)) + q * (p mod (q - 1))) by nia.
+      rewrite pow_euler_reduce; try assumption; try reflexivity.
+      + apply Z.div_pos; lia.
+      + pose proof (Z.mod_pos_bound p (q - 1) ltac:(lia)). nia.
+  Qed.
+
+  Lemma sk_cscale_eq : forall c s, sk_cscale k c s = cscale (p * q) c s.
+  Proof.
+    intros c s. unfold sk_cscale, cscale, modexpi.
+    rewrite sk_modexp2_eq by apply Z.abs_nonneg. destruct (s <? 0); [apply sk_modinv2_eq | reflexivity].
+  Qed.
+
+  Lemma sk_cinv_eq : forall c, sk_cinv k c = cinv (p * q) c.
+  Proof. intros. apply sk_modinv2_eq. Qed.
+
+  Lemma sk_cmul_eq : forall c1 c2, sk_cmul k c1 c2 = cmul (p * q) c1 c2.
+  Proof. intros. unfold sk_cmul. now rewrite sk_N_eq. Qed.
+
+  Lemma sk_enc_eq : forall m r, Z.gcd r (p * q) = 1 -> sk_enc k m r = enc (p * q) m r.
+  Proof. intros m r Hg. unfold sk_enc, enc. rewrite sk_cmul_eq, sk_noise_eq, sk_N_eq by assumption. reflexivity. Qed.
+
+  Lemma sk_shift_eq : forall c d, sk_shift k c d = shift (p * q) c d.
+  Proof. intros. unfold sk_shift, shift. rewrite sk_cmul_eq, sk_N_eq. reflexivity. Qed.
+
+  Lemma sk_rerandomise_eq : forall c r, Z.gcd r (p * q) = 1 -> sk_rerandomise k c r = rerandomise (p * q) c r.
+  Proof. intros c r Hg. unfold sk_rerandomise, rerandomise. rewrite sk_cmul_eq, sk_noise_eq by assumption. reflexivity. Qed.
+
+  (* the nonce group with known order: modular.OddPrimeFactors *)
+  Lemma sk_nonce_mul_eq : forall a b, sk_nonce_mul k a b = nonce_mul (p * q) a b.
+  Proof.
+    intros a b. destruct (precompute_fields _ _ _ Hk) as (Ep & Eq & Hp2 & Hq2 & Hqi & _).
+    unfold sk_nonce_mul, nonce_mul, recombine_N. rewrite Ep, Eq.
+    apply recombine_eq; try lia; try assumption.
+    - apply primes_rel_prime; assumption.
+    - apply Z.mod_pos_bound. nia.
+    - rewrite Zmod_mod, <- Zmult_mod. symmetry. apply mod_mod_divide; [lia | exists q; ring].
+    - rewrite <- Zmult_mod. symmetry. apply mod_mod_divide; [lia | exists p; ring].
+  Qed.
+
+  Lemma sk_modexp1_eq : forall b e, 0 <= e -> sk_modexp1 k b e = modexp b e (p * q).
+  Proof.
+    intros b e He.
+    destruct (precompute_fields _ _ _ Hk) as (Ep & Eq & Hp2 & Hq2 & Hqi & _).
+    unfold sk_modexp1, recombine_N. rewrite Ep, Eq.
+    apply crt_modexp; try lia; try assumption.
+    - apply primes_rel_prime; assumption.
+    - destruct (Z.gcd b p =? 1) eqn:Eg; [|reflexivity]. apply Z.eqb_eq in Eg.
+      rewrite (Z.div_mod e (p - 1)) at 2 by lia.
+      rewrite pow_fermat_reduce; try assumption; try reflexivity.
+      + apply Z.div_pos; lia.
+      + apply Z.mod_pos_bound; lia.
+    - destruct (Z.gcd b q =? 1) eqn:Eg; [|reflexivity]. apply Z.eqb_eq in Eg.
+      rewrite (Z.div_mod e (q - 1)) at 2 by lia.
+      rewrite pow_fermat_reduce; try assumption; try reflexivity.
+      + apply Z.div_pos; lia.
+      + apply Z.mod_pos_bound; lia.
+  Qed.
+
+  Lemma sk_modinv1_eq : forall a, sk_modinv1 k a = modinv a (p * q).
+  Proof.
+    intros a. destruct (precompute_fields _ _ _ Hk) as (Ep & Eq & Hp2 & Hq2 & Hqi & _).
+    unfold sk_modinv1, recombine_N. rewrite Ep, Eq.
+    apply crt_modinv; try lia; try assumption. apply primes_rel_prime; assumption.
+  Qed.
+
+  Lemma sk_nonce_scale_eq : forall r s, sk_nonce_scale k r s = nonce_scale (p * q) r s.
+  Proof.
+    intros r s. unfold sk_nonce_scale, nonce_scale, modexpi.
+    rewrite sk_modexp1_eq by apply Z.abs_nonneg. destruct (s <? 0); [apply sk_modinv1_eq | reflexivity].
+  Qed.
+
+  Lemma sk_nonce_inv_eq : forall r, sk_nonce_inv k r = nonce_inv (p * q) r.
+  Proof. intros. apply sk_modinv1_eq. Qed.
+
+  (* everything in one statement *)
+  Lemma sk_ops_equal_pk_ops : forall c c2 m r s d, Z.gcd r (p * q) = 1 ->
+    sk_enc k m r = enc (p * q) m r /\
+    sk_noise k r = noise (p * q) r /\
+    sk_cmul k c c2 = cmul (p * q) c c2 /\
+    sk_cscale k c s = cscale (p * q) c s /\
+    sk_cinv k c = cinv (p * q) c /\
+    sk_shift k c d = shift (p * q) c d /\
+    sk_rerandomise k c r = rerandomise (p * q) c r /\
+    sk_nonce_mul k c c2 = nonce_mul (p * q) c c2 /\
+    sk_nonce_scale k c s = nonce_scale (p * q) c s /\
+    sk_nonce_inv k c = nonce_inv (p * q) c.
+  Proof.
+    intros c c2 m r s d Hg.
+    repeat split; auto using sk_enc_eq, sk_noise_eq, sk_cmul_eq, sk_cscale_eq, sk_cinv_eq, sk_shift_eq,
+      sk_rerandomise_eq, sk_nonce_mul_eq, sk_nonce_scale_eq, sk_nonce_inv_eq.
+  Qed.
+End SecretKeyPath.
+
+(* ---- what the homomorphic operations do to the decrypted plaintext ------------------------------- *)
+
+Lemma gcd_mulmod : forall a b N, 1 < N -> Z.gcd a N = 1 -> Z.gcd b N = 1 -> Z.gcd ((a * b) mod N) N = 1.
+Proof.
+  intros a b N HN Ha Hb. rewrite gcd_mod_l by lia. rewrite Z.gcd_comm.
+  apply Zgcd_1_rel_prime. apply rel_prime_mult; apply Zgcd_1_rel_prime; rewrite Z.gcd_comm; assumption.
+Qed.
+
+Lemma nonce_scale_unit : forall N r k r', 1 < N -> Z.gcd r N = 1 -> nonce_scale N r k = Some r' -> Z.gcd r' N = 1.
+Proof.
+  intros N r k r' HN Hg H. unfold nonce_scale, modexpi in H. rewrite modexp_spec in H by lia.
+  assert (Hz : Z.gcd (r ^ Z.abs k mod N) N = 1).
+  { rewrite gcd_mod_l by lia. rewrite Z.gcd_comm. apply Zgcd_1_rel_prime.
+    apply rel_prime_Zpower_r; [apply Z.abs_nonneg|]. apply Zgcd_1_rel_prime. rewrite Z.gcd_comm. assumption. }
+  destruct (k <? 0).
+  - destruct (modinv_sound _ _ _ H) as (_ & _ & Hx). apply inv_witness_gcd with (x := r ^ Z.abs k mod N); [assumption|].
+    rewrite Z.mul_comm. assumption.
+  - inversion H; subst. assumption.
+Qed.
+
+Section Homomorphic.
+  Variables p q : Z.
+  Variable k : skey.
+  Hypothesis Hp : prime p.
+  Hypothesis Hq : prime q.
+  Hypothesis Hne : p <> q.
+  Hypothesis Hk : precompute p q = Some k.
+
+  Let N := p * q.
+
+  Lemma N_gt_1 : 1 < p * q.
+  Proof. destruct Hp, Hq. nia. Qed.
+
+  Lemma decrypt_add : forall m1 r1 m2 r2, Z.gcd r1 (p * q) = 1 -> Z.gcd r2 (p * q) = 1 ->
+    decrypt k (cmul (p * q) (enc (p * q) m1 r1) (enc (p * q) m2 r2)) = (m1 + m2) mod (p * q).
+  Proof.
+    intros. pose proof N_gt_1. rewrite enc_add by lia. apply decrypt_enc; try assumption.
+    - apply gcd_mulmod; assumption.
+    - apply Z.mod_pos_bound. lia.
+  Qed.
+
+  Lemma decrypt_shift : forall m r d, Z.gcd r (p * q) = 1 ->
+    decrypt k (shift (p * q) (enc (p * q) m r) d) = (m + d) mod (p * q).
+  Proof.
+    intros. pose proof N_gt_1. rewrite enc_shift by lia. apply decrypt_enc; try assumption.
+    apply Z.mod_pos_bound. lia.
+  Qed.
+
+  Lemma decrypt_rerandomise : forall m r r', Z.gcd r (p * q) = 1 -> Z.gcd r' (p * q) = 1 -> 0 <= m < p * q ->
+    decrypt k (rerandomise (p * q) (enc (p * q) m r) r') = m.
+  Proof.
+    intros. pose proof N_gt_1. rewrite rerandomise_spec by lia. apply decrypt_enc; try assumption.
+    apply gcd_mulmod; assumption.
+  Qed.
+
+  Lemma decrypt_scale : forall m r s c', Z.gcd r (p * q) = 1 ->
+    cscale (p * q) (enc (p * q) m r) s = Some c' -> decrypt k c' = (m * s) mod (p * q).
+  Proof.
+    intros m r s c' Hg Hc. pose proof N_gt_1 as HN.
+    assert (exists r', nonce_scale (p * q) r s = Some r') as [r' Hr].
+    { unfold nonce_scale, modexpi. destruct (s <? 0); [|eauto]. apply modinv_complete; [assumption|].
+      rewrite modexp_spec by lia. rewrite gcd_mod_l by lia. rewrite Z.gcd_comm. apply Zgcd_1_rel_prime.
+      apply rel_prime_Zpower_r; [apply Z.abs_nonneg|]. apply Zgcd_1_rel_prime. rewrite Z.gcd_comm. assumption. }
+    rewrite (enc_scale _ _ _ _ _ _ HN Hc Hr). apply decrypt_enc; try assumption.
+    - eapply nonce_scale_unit; eauto.
+    - apply Z.mod_pos_bound. lia.
+  Qed.
+
+  (* scaling an encryption under a unit nonce is never refused *)
+  Lemma cscale_defined : forall m r s, Z.gcd r (p * q) = 1 -> exists c', cscale (p * q) (enc (p * q) m r) s = Some c'.
+  Proof.
+    intros m r s Hg. pose proof N_gt_1 as HN. unfold cscale, modexpi. destruct (s <? 0); [|eauto].
+    apply modinv_complete; [nia|]. rewrite modexp_spec by nia. rewrite gcd_mod_l by nia.
+    rewrite Z.gcd_comm. apply Zgcd_1_rel_prime. apply rel_prime_Zpower_r; [apply Z.abs_nonneg|].
+    apply Zgcd_1_rel_prime. rewrite Z.gcd_comm. apply enc_unit; assumption.
+  Qed.
+
+  Lemma decrypt_homomorphic :
+    (forall m1 r1 m2 r2, Z.gcd r1 (p * q) = 1 -> Z.gcd r2 (p * q) = 1 ->
+       decrypt k (cmul (p * q) (enc (p * q) m1 r1) (enc (p * q) m2 r2)) = (m1 + m2) mod (p * q)) /\
+    (forall m r s c', Z.gcd r (p * q) = 1 ->
+       cscale (p * q) (enc (p * q) m r) s = Some c' -> decrypt k c' = (m * s) mod (p * q)) /\
+    (forall m r s, Z.gcd r (p * q) = 1 -> exists c', cscale (p * q) (enc (p * q) m r) s = Some c') /\
+    (forall m r d, Z.gcd r (p * q) = 1 ->
+       decrypt k (shift (p * q) (enc (p * q) m r) d) = (m + d) mod (p * q)) /\
+    (forall m r r', Z.gcd r (p * q) = 1 -> Z.gcd r' (p * q) = 1 -> 0 <= m < p * q ->
+       decrypt k (rerandomise (p * q) (enc (p * q) m r) r') = m).
+  Proof.
+    repeat split.
+    - apply decrypt_add.
+    - apply decrypt_scale.
+    - apply cscale_defined.
+    - apply decrypt_shift.
+    - apply decrypt_rerandomise.
+  Qed.
+End Homomorphic.
+
+(* ---- symmetric plaintext range ------------------------------------------------------------------------ *)
+
+Lemma symmetric_roundtrip : forall N x y, 0 < N -> plaintext_symmetric N x = Some y -> normalise N y = x.
+Proof.
+  intros N x y HN H. unfold plaintext_symmetric in H.
+  destruct (- N <=? 2 * x) eqn:E1; [|discriminate]. destruct (2 * x <? N) eqn:E2; [|discriminate].
+  cbn in H. inversion H; subst y. apply Z.leb_le in E1. apply Z.ltb_lt in E2.
+  unfold normalise. rewrite Zmod_mod.
+  destruct (Z.lt_ge_cases x 0) as [Hx|Hx].
+  - assert (Ea : x mod N = x + N) by (symmetry; apply (Zmod_unique x N (-1)); lia).
+    rewrite Ea. assert (En : (- (x + N)) mod N = - x) by (symmetry; apply (Zmod_unique _ N (-1)); lia).
+    rewrite En. replace (- x <=? x + N) with true by (symmetry; apply Z.leb_le; lia). lia.
+  - rewrite (Z.mod_small x N) by lia. destruct (Z.eq_dec x 0) as [->|Hx0].
+    + rewrite Z.mod_0_l by lia. reflexivity.
+    + assert (En : (- x) mod N = N - x) by (symmetry; apply (Zmod_unique _ N (-1)); lia).
+      rewrite En. replace (N - x <=? x) with false by (symmetry; apply Z.leb_gt; lia). reflexivity.
+Qed.
+
+Lemma plaintext_symmetric_accepts : forall N x, - N <= 2 * x < N -> plaintext_symmetric N x = Some (x mod N).
+Proof.
+  intros N x [H1 H2]. unfold plaintext_symmetric.
+  replace (- N <=? 2 * x) with true by (symmetry; apply Z.leb_le; lia).
+  replace (2 * x <? N) with true by (symmetry; apply Z.ltb_lt; lia). reflexivity.
+Qed.
+
+(* ---- key construction: what an accepted key satisfies; admissible primes are never refused ------- *)
+
+Lemma new_secret_key_ok : forall minlen p q k, new_secret_key minlen p q = Some k ->
+  precompute p q = Some k /\ minlen <= bitlen (p * q) /\ bitlen p = bitlen q /\ p <> q.
+Proof.
+  intros minlen p q k H. unfold new_secret_key in H.
+  destruct (bitlen p =? bitlen q) eqn:E1; [|discriminate]. destruct (p =? q) eqn:E2; [discriminate|].
+  destruct (Z.odd p); [|discriminate]. destruct (Z.odd q); [|discriminate].
+  destruct (1 <? p); [|discriminate]. destruct (1 <? q); [|discriminate].
+  destruct (minlen <=? bitlen (p * q)) eqn:E3; [|discriminate]. cbn in H.
+  apply Z.eqb_eq in E1. apply Z.eqb_neq in E2. apply Z.leb_le in E3. auto.
+Qed.
+
+Lemma prime_gt2_odd : forall p, prime p -> 2 < p -> Z.odd p = true.
+Proof.
+  intros p Hp H2. destruct (Z.odd p) eqn:E; [reflexivity|]. exfalso.
+  rewrite <- Z.negb_even in E. apply Bool.negb_false_iff in E. apply Z.even_spec in E. destruct E as [c Hc].
+  destruct (prime_divisors p Hp 2 ltac:(exists c; lia)) as [H|[H|[H|H]]]; lia.
+Qed.
+
+Lemma bitlen_lt_double : forall p q, 0 < p -> 0 < q -> bitlen p = bitlen q -> p < 2 * q.
+Proof.
+  intros p q Hp Hq H. unfold bitlen in H.
+  replace (p <=? 0) with false in H by (symmetry; apply Z.leb_gt; lia).
+  replace (q <=? 0) with false in H by (symmetry; apply Z.leb_gt; lia).
+  assert (E : Z.log2 p = Z.log2 q) by lia.
+  destruct (Z.log2_spec p Hp) as [_ Hpu]. destruct (Z.log2_spec q Hq) as [Hql _].
+  rewrite E in Hpu. rewrite Z.pow_succ_r in Hpu by apply Z.log2_nonneg. lia.
+Qed.
+
+Lemma prime_coprime_pred : forall p q, prime p -> prime q -> 2 < p -> 2 < q -> p < 2 * q -> Z.gcd q (p - 1) = 1.
+Proof.
+  intros p q Hp Hq Hp2 Hq2 Hlt. apply Zgcd_1_rel_prime. apply prime_rel_prime; [assumption|].
+  intros [c Hc]. assert (c = 1) by nia. subst c.
+  pose proof (prime_gt2_odd p Hp Hp2) as Op. pose proof (prime_gt2_odd q Hq Hq2) as Oq.
+  replace p with (q + 1) in Op by lia. rewrite Z.odd_add, Oq in Op. discriminate.
+Qed.
+
+Lemma precompute_total : forall p q, prime p -> prime q -> p <> q -> 2 < p -> 2 < q ->
+  bitlen p = bitlen q -> exists k, precompute p q = Some k.
+Proof.
+  intros p q Hp Hq Hne Hp2 Hq2 Hb.
+  pose proof (primes_rel_prime p q Hp Hq Hne) as Hrp.
+  assert (G1 : Z.gcd q p = 1) by (apply Zgcd_1_rel_prime; apply rel_prime_sym; assumption).
+  assert (G3 : Z.gcd p q = 1) by (apply Zgcd_1_rel_prime; assumption).
+  assert (G2 : Z.gcd ((q * q) mod (p * p)) (p * p) = 1).
+  { rewrite gcd_mod_l by nia. apply Zgcd_1_rel_prime. apply rel_prime_sym. apply squares_rel_prime. assumption. }
+  assert (G4 : Z.gcd q (p - 1) = 1) by (apply prime_coprime_pred; try assumption; apply bitlen_lt_double; lia).
+  assert (G5 : Z.gcd p (q - 1) = 1) by (apply prime_coprime_pred; try assumption; apply bitlen_lt_double; lia).
+  unfold precompute.
+  destruct (modinv_complete q p ltac:(lia) G1) as [x1 ->].
+  destruct (modinv_complete _ (p * p) ltac:(nia) G2) as [x2 ->].
+  destruct (modinv_complete p q ltac:(lia) G3) as [x3 ->].
+  destruct (modinv_complete q (p - 1) ltac:(lia) G4) as [x4 ->].
+  destruct (modinv_complete p (q - 1) ltac:(lia) G5) as [x5 ->].
+  eauto.
+Qed.
+
+(* newSecretKey accepts exactly the distinct odd primes of equal length above the floor *)
+Lemma new_secret_key_total : forall minlen p q, prime p -> prime q -> p <> q -> 2 < p -> 2 < q ->
+  bitlen p = bitlen q -> minlen <= bitlen (p * q) -> exists k, new_secret_key minlen p q = Some k.
+Proof.
+  intros minlen p q Hp Hq Hne Hp2 Hq2 Hb Hm.
+  destruct (precompute_total p q Hp Hq Hne Hp2 Hq2 Hb) as [k Hk]. exists k. unfold new_secret_key.
+  rewrite Hb, Z.eqb_refl. replace (p =? q) with false by (symmetry; apply Z.eqb_neq; assumption).
+  rewrite (prime_gt2_odd p Hp Hp2), (prime_gt2_odd q Hq Hq2).
+  replace (1 <? p) with true by (symmetry; apply Z.ltb_lt; lia).
+  replace (1 <? q) with true by (symmetry; apply Z.ltb_lt; lia).
+  replace (minlen <=? bitlen (p * q)) with true by (symmetry; apply Z.leb_le; assumption).
+  cbn. assumption.
+Qed.
+
+(* concrete primes for the non-vacuity example (computed by MathComp's prime test, mc/NtFacts.v) *)
+Lemma example_primes : prime 1031 /\ prime 1049 /\ 1031 <> 1049.
+Proof. split; [exact NtFacts.Zprime_1031 | split; [exact NtFacts.Zprime_1049 | discriminate]]. Qed.
